@@ -138,6 +138,15 @@ def _run(case, cfg, w):
     kernel = getattr(w, 'kernel', None)
     buf = YieldList(kernel, rec)
     sc.input_buffer = buf
+    # the instant the connection ends for good: __disconnect_final clears
+    # `connected` and then sets the connected event
+    _orig_set = sc.connected_event.set
+
+    def _set():
+        if not sc.connected:
+            rec.add('final_disconnect')
+        return _orig_set()
+    sc.connected_event.set = _set
     t0 = w.now()
     counter = [0]
     final_at = [None]      # virtual time at which the connection ended for good
@@ -268,7 +277,14 @@ def _run(case, cfg, w):
                          arrived_before[-1]['t'], n_ret_before))
         if r['kind'] == 'exc:recv' and r['val'] == 'DisconnectedError':
             n_ret_before = len([x for x in returned if x['seq'] < r['seq']])
-            arrived_before = [a for a in arrivals if a['seq'] < r['seq']]
+            # "the events received before that": before the connection ended
+            # for good (an event whose handler thread runs after the final
+            # notification was received after it)
+            finals = [e['seq'] for e in rec.events
+                      if e['kind'] == 'final_disconnect']
+            fseq = finals[0] if finals else r['seq']
+            arrived_before = [a for a in arrivals
+                              if a['seq'] < min(fseq, r['seq'])]
             if len(arrived_before) > n_ret_before:
                 v.add('disconnected_error_before_events_returned',
                       'step %d: %d arrived, %d returned'
